@@ -78,8 +78,11 @@ static const VSet kVSets[] = {
     {"coef*2^-30", 1.0 / 1073741824.0, 0},
     {"coef*-3", -3.0, 0},
     {"root*2^8", 1.0, 8},
-    {"root*2^-8", 1.0, -8}};
-static const int kNVSets = 6;
+    {"root*2^-8", 1.0, -8},
+    // coefficient moduli beyond sqrt(DBL_MAX) / below sqrt(DBL_MIN): the solvers' internal rescaling paths (roots unchanged)
+    {"coef*2^540", 3.599131035634557e+162, 0},
+    {"coef*2^-520", 2.913414348125081e-157, 0}};
+static const int kNVSets = 8;
 
 // largest cluster multiplicity of a root multiset (1 and 1+1e-6 count as one cluster)
 static int maxMultiplicity(const std::vector<int>& idx) {
@@ -94,7 +97,7 @@ static Case makeCase(const GPoly& p, const std::vector<int>& rootIdx, const VSet
     c.family = desc.substr(0, desc.find_first_of(" ["));
     if (c.family == "rootsC" || c.family == "rootsR") c.family = maxMultiplicity(rootIdx) <= 3 ? "roots(m<=3)" : "roots(m>=4)";
     if (c.family == "ladder") { size_t p0 = desc.find(' ') + 1; c.family = "ladder-" + desc.substr(p0, desc.find(' ', p0) - p0) + ((int)p.size() - 1 >= 17 ? "(n>=17)" : "(n<17)"); }
-    c.vclass = vs.rsExp > 0 ? "rup" : vs.rsExp < 0 ? "rdown" : (vs.cs != 1.0 ? "cscale" : "plain");
+    c.vclass = vs.rsExp > 0 ? "rup" : vs.rsExp < 0 ? "rdown" : (vs.cs > 1e100 ? "cextreme-up" : vs.cs > 0 && vs.cs < 1e-100 ? "cextreme-down" : vs.cs != 1.0 ? "cscale" : "plain");
     int n = (int)p.size() - 1;
     c.realCoefs = true;
     for (int k = 0; k <= n; ++k) {
@@ -188,8 +191,8 @@ static void checkOne(verif::Run& run, const Case& c, Entry e, bool isFloat) {
     // oracle / violation-key name: entry point + input class.  For the closed-form quadratics the
     // class is the branch (b == 0 or not); elsewhere the family (or ladder shape) and the scaling class.
     std::string ename = std::string(isFloat ? "float:" : "") + kEntryName[e] + "/";
-    if (e == RQ || e == CQ) ename += (c.a[1] == CD(0, 0)) ? "b=0" : "b!=0";
-    else if (c.family.rfind("ladder", 0) == 0) ename += c.family;
+    if (e == RQ || e == CQ) ename += std::string((c.a[1] == CD(0, 0)) ? "b=0" : "b!=0") + (c.vclass.rfind("cextreme", 0) == 0 ? "@" + c.vclass : "");
+    else if (c.family.rfind("ladder", 0) == 0) ename += c.family + (c.vclass.rfind("cextreme", 0) == 0 ? "@" + c.vclass : "");
     else ename += c.family + "@" + c.vclass;
     const std::string cls = "";
     // coefficients in the working precision (exact for double)
